@@ -159,6 +159,20 @@ func c04Check(c *vfCase, tl directTally, v *directView, sibling *directService, 
 				detail(map[string]any{"sibling": sibling, "sibling_decisions": dec2, "sibling_eligible": elig2}))
 		}
 	}
+	if len(w.ips) == 2 && directSetKey(elig) == directSetKey(elig2) {
+		// the second service is single-stack and holds only the SECOND address of the first one (the
+		// allocator lets services with one sharing key share any single address)
+		w2 := *w
+		w2.ips = w.ips[1:]
+		ann3, dec3 := directL2Decide(&w2, v, so2, names)
+		c.Eval()
+		tl["sibling-holding-only-the-second-address"]++
+		if len(ann) == 1 && len(ann3) == 1 && ann[0] != ann3[0] {
+			c.Violation("l2:sharing-services-elect-different-nodes:sibling-holds-only-the-second-address",
+				fmt.Sprintf("svc1 holds %v, svc2 only %v, same eligible nodes %v: %s announces svc1 (both addresses) and %s announces svc2, so two nodes answer for %v", w.ips, w2.ips, elig, ann[0], ann3[0], w2.ips),
+				detail(map[string]any{"sibling": sibling, "sibling_decisions": dec3}))
+		}
+	}
 	if len(ann2) > 1 || (len(ann2) == 0) != (len(elig2) == 0) || (len(ann2) == 1 && ann2[0] != directElect(elig2, firstIP)) {
 		c.Violation("l2:sibling-service-wrong-announcers",
 			fmt.Sprintf("second service on %s: announcers %v, eligible %v", firstIP, ann2, elig2),
